@@ -166,10 +166,19 @@ func (g *genState) makeOp(conn int, op string) Step {
 		if st.Ent.K == "own" || st.Ent.K == "other" {
 			st.Ent.K = "any"
 		}
+		if r.Bool(0.1) {
+			st.Typ = Ref{K: "comp", I: r.Intn(5)} // an existing component: conflict
+		}
 	case "comp_delete":
 		st.Typ, st.Ent = g.typRef(), g.entRef(40)
+		if r.Bool(0.6) {
+			st.Typ = Ref{K: "comp", I: r.Intn(5)}
+		}
 	case "comp_update":
 		st.Typ, st.Ent, st.Data = g.typRef(), g.entRef(40), fmt.Sprintf("u%d", g.counter)
+		if r.Bool(0.75) {
+			st.Typ = Ref{K: "comp", I: r.Intn(5)}
+		}
 	case "comp_list", "subscribe", "unsubscribe":
 		st.Typ = g.typRef()
 	case "action":
